@@ -1384,7 +1384,7 @@ def r_random_split(ctx, eqn, k):
     shape = tuple(eqn.params["shape"])
     out = np.empty(k.shape + shape, dtype=object)
     for b in np.ndindex(*k.shape):
-        ctx.consumed.append(("split", k[b], ctx.path))
+        ctx.consumed.append(("split", k[b], ctx.path, len(list(np.ndindex(*shape)))))
         for j, idx in enumerate(np.ndindex(*shape)):
             out[b + idx] = Key.Split(k[b], IV(j))
     return out
@@ -1393,7 +1393,7 @@ def r_random_split(ctx, eqn, k):
 @rule("random_fold_in")
 def r_random_fold_in(ctx, eqn, k, d):
     def f(kk, dd):
-        ctx.consumed.append(("fold", kk, ctx.path))
+        ctx.consumed.append(("fold", kk, ctx.path, dd))
         return Key.Fold(kk, dd)
     return ew(f)(ctx, eqn, k, d)
 
@@ -1404,7 +1404,7 @@ def r_random_bits(ctx, eqn, k):
     shape = tuple(eqn.params["shape"])
     out = np.empty(k.shape + shape, dtype=object)
     for b in np.ndindex(*k.shape):
-        ctx.consumed.append(("bits", k[b], ctx.path))
+        ctx.consumed.append(("bits", k[b], ctx.path, shape))
         for j, idx in enumerate(np.ndindex(*shape)):
             out[b + idx] = Bits(k[b], IV(j))
     return out
